@@ -306,6 +306,62 @@ func propagationForCalledTo(
 	return false
 }
 
+// admits reports whether a declared non-union type admits a value of a non-union
+// type: same kind of value, and the same class when both are objects.
+func admits(definedT *base.T, argT *base.T) bool {
+	if definedT.IsAnyType() || argT.IsAnyType() {
+		return true
+	}
+
+	return definedT.IsMatchType(argT)
+}
+
+// isAcceptedByUnion: a declared union admits an argument when every possible
+// class of the argument is admitted by one of the declared variants.
+func isAcceptedByUnion(definedArgT *base.T, argT *base.T) bool {
+	definedVariants := definedArgT.GetVariants()
+
+	argVariants := []base.T{*argT}
+	if argT.IsUnionType() {
+		argVariants = argT.GetVariants()
+	}
+
+	for _, variant := range append(definedVariants, argVariants...) {
+		if variant.IsAnyType() {
+			return true
+		}
+	}
+
+	for _, argVariant := range argVariants {
+		var isAdmitted bool
+
+		for _, definedVariant := range definedVariants {
+			if admits(&definedVariant, &argVariant) {
+				isAdmitted = true
+				break
+			}
+		}
+
+		if !isAdmitted {
+			return false
+		}
+	}
+
+	return true
+}
+
+// isAnyVariantAccepted: a union argument for a non-union parameter is accepted
+// when at least one of its variants is admitted.
+func isAnyVariantAccepted(definedArgT *base.T, argT *base.T) bool {
+	for _, argVariant := range argT.GetVariants() {
+		if admits(definedArgT, &argVariant) {
+			return true
+		}
+	}
+
+	return false
+}
+
 func checkArgType(
 	m *MethodEvaluator,
 	class string,
@@ -324,7 +380,7 @@ func checkArgType(
 		return nil
 
 	case definedArgT.IsUnionType():
-		if definedArgT.IsMatchUnionType(argT) {
+		if isAcceptedByUnion(definedArgT, argT) {
 			return nil
 		}
 
@@ -346,7 +402,7 @@ func checkArgType(
 		)
 
 	case argT.IsUnionType():
-		if argT.IsMatchUnionType(definedArgT) {
+		if isAnyVariantAccepted(definedArgT, argT) {
 			return nil
 		}
 
